@@ -403,6 +403,14 @@ class WriterK1(object):
                         op = (ev.kind, ev.loc, ev.fn)
                         if op not in result['ops']:
                             result['ops'].append(op)
+                        if ev.kind == 'stream-write' and path.outcome == 'return' and 'written_id' not in result:
+                            d_ = ev.data.get('data')
+                            x_ = d_
+                            for _ in range(6):
+                                if isinstance(x_, Unk) and x_.src and x_.src[0] == 'binop':
+                                    x_ = x_.src[2]
+                            if is_concrete(x_) and isinstance(concrete(x_), bytes) and concrete(x_).startswith(b'#'):
+                                result['written_id'] = concrete(x_)[1:].split(b':')[0].decode('latin-1')
                         if ev.kind == 'stream-write' and path.outcome == 'return':
                             from sa import sinks
                             for k_, v_, node_ in sinks.header_pairs(ev.data.get('data')):
@@ -535,7 +543,7 @@ _K = None
 def _run_one(seq):
     res = _K.run_sequence(seq)
     out = {'problems': res['problems'], 'sig': res.get('sig'), 'accepted': res.get('accepted', True)}
-    for k in ('raises', 'escapes', 'ops', 'pairs', 'next_id', 'prev_id'):
+    for k in ('raises', 'escapes', 'ops', 'pairs', 'next_id', 'prev_id', 'written_id'):
         if k in res:
             out[k] = res[k]
     return out
